@@ -158,78 +158,153 @@ struct S { RadioTap rt; Model m; };
 struct Op { int k; int vi; };
 static std::string op_str(const Op& o) { return std::string(F[o.k].name) + ":" + str(o.vi); }
 
-static uint64_t g_getter_comparisons = 0, g_reparses = 0;
+static uint64_t g_getter_comparisons = 0, g_reparses = 0, g_targeted_reads = 0;
+
+// one read of one field, judged against the model at that moment ("" = agrees)
+static std::string read_vs_model(const RadioTap& r, const Model& m, int k, const char* where, const char* suffix = "") {
+    uint64_t v = 0;
+    bool has = get_field(r, k, v);
+    bool want = m.mask >> k & 1;
+    if (g_getter_exc.empty() && has == want && (!want || v == m.val[k])) return "";
+    std::string P = std::string("radiotap:") + where + ":" + F[k].name + suffix;
+    if (!g_getter_exc.empty())
+        return P + ":throws|getter threw " + g_getter_exc + (want ? ", last write " + hx(m.val[k]) : ", field never set (field_not_present expected)");
+    if (want && !has) return P + ":set-but-not-present|getter threw field_not_present, model " + hx(m.val[k]);
+    if (!want && has) return P + ":never-set-but-readable|getter returned " + hx(v) + " for a field that was never set";
+    if (want && v != m.val[k]) return P + ":wrong-value|getter returned " + hx(v) + ", last write " + hx(m.val[k]);
+    return "";
+}
 static std::string getters_vs_model(const RadioTap& r, const Model& m, const char* where) {
     for (int k = 0; k < NF; ++k) {
-        uint64_t v = 0;
-        bool has = get_field(r, k, v);
-        bool want = m.mask >> k & 1;
-        std::string P = std::string("radiotap:") + where + ":" + F[k].name;
-        if (!g_getter_exc.empty())
-            return P + ":throws|getter threw " + g_getter_exc + (want ? ", last write " + hx(m.val[k]) : ", field never set (field_not_present expected)");
-        if (want && !has) return P + ":set-but-not-present|getter threw field_not_present, model " + hx(m.val[k]);
-        if (!want && has) return P + ":never-set-but-readable|getter returned " + hx(v) + " for a field that was never set";
-        if (want && v != m.val[k]) return P + ":wrong-value|getter returned " + hx(v) + ", last write " + hx(m.val[k]);
+        std::string e = read_vs_model(r, m, k, where);
+        if (!e.empty()) return e;
         ++g_getter_comparisons;
     }
     return "";
 }
 
-static std::string check(S& s, const Op& op) {
-    const Model& m = s.m;
-    // 1. canonical layout
+static uint64_t field_value(const Op& op);
+static void apply_model(Model& m, const Op& op) { m.mask |= 1u << op.k; m.val[op.k] = field_value(op); }
+
+// ---- getter calls are part of the history -------------------------------------------------------------------------
+// (a) per state: on ONE copy of the state a walk of 210 reads in which every ordered pair (F1, F2) of the 14 fields, F1 == F2
+//     included, occurs as two consecutive reads (i i j i j' i ... for every i and every j > i); every single read is judged
+static std::string probe_read_pairs(const S& s) {
+    RadioTap c(s.rt);
+    int prev = -1;
+    for (int i = 0; i < NF; ++i)
+        for (int step = 0; step < 2 + 2 * (NF - 1 - i); ++step) {
+            int f = step < 2 || step % 2 == 1 ? i : i + step / 2;
+            std::string e = read_vs_model(c, s.m, f, "get-get");
+            if (!e.empty()) return e + " [read after " + (prev < 0 ? "nothing" : F[prev].name) + "]";
+            prev = f;
+            ++g_targeted_reads;
+        }
+    return "";
+}
+// (b) per transition (state, set(G, v)): for every field F that is present afterwards (every F present before, and G itself):
+//     on a fresh copy of the state   get(F); set(G, v); get(F)   with nothing in between, both reads judged against the model
+//     of their moment (G absent = insertion in front of / behind F, G present = overwrite, F == G = read-own-write)
+static std::string probe_get_set_get(const S& s, const Op& op) {
+    Model after = s.m;
+    apply_model(after, op);
+    for (int f = 0; f < NF; ++f) {
+        if (!(after.mask >> f & 1)) continue;
+        RadioTap c(s.rt);
+        std::string e = read_vs_model(c, s.m, f, "get-set-get", ":before");
+        if (e.empty()) {
+            set_field(c, op.k, field_value(op));
+            e = read_vs_model(c, after, f, "get-set-get");
+        }
+        if (!e.empty()) return e + " [get(" + F[f].name + "); " + op_str(op) + "; get(" + F[f].name + ")]";
+        g_targeted_reads += 2;
+    }
+    return "";
+}
+
+// ---- cheap part of the oracle, evaluated on EVERY transition of every job: canonical layout (private member, no library call)
+static std::string check_layout(const S& s, const Op& op, Bytes& want) {
     std::vector<bool> is_pad;
-    Bytes want = layout(m, &is_pad);
-    const Bytes actual = s.rt.options_payload_;
-    if (!same_layout(actual, want, is_pad))
+    want = layout(s.m, &is_pad);
+    if (!same_layout(s.rt.options_payload_, want, is_pad))
         return std::string("radiotap:layout:") + F[op.k].name + "|options_payload_ " + hex(s.rt.options_payload_) + " canonical " + hex(want);
-    if (s.rt.options_payload() != actual) return "radiotap:layout:accessor|options_payload() differs from the member";
-    // 2. present word
-    uint32_t pres = (uint32_t)s.rt.present();
-    if (pres != present_of(m)) return "radiotap:present:mask|present()=" + hx(pres) + " written fields " + hx(present_of(m));
-    // 3. getters
-    std::string e = getters_vs_model(s.rt, m, "getter");
-    if (!e.empty()) return e;
-    // 4. serialization: length field covers exactly the header, header image canonical, inner frame behind it
-    Bytes w = s.rt.serialize();
-    size_t hdr = 4 + want.size();
-    // FLAGS steers the trailer: with the FCS bit the serializer appends a 4-byte FCS behind the inner frame, without it nothing
+    return "";
+}
+
+// ---- wire round trip of one packet shape:  0 = header + 802.11 ACK frame, 1 = the header alone (no inner PDU),
+//      2 = header + zero-length RawPDU.  size() == serialization length == header + inner + trailer (4 iff flags has FCS).
+static const char* SHAPES[] = {"ack", "bare", "empty-raw"};
+static const bool HEADER_ONLY_MUST_PARSE = true;
+static std::string flags_str(const Model& m) { return (m.mask >> K_FLAGS & 1) ? hx(m.val[K_FLAGS]) : std::string("absent"); }
+static std::string wire_round_trip(const RadioTap& base, const Model& m, const Bytes& actual, int shape) {
+    RadioTap p(base);
+    if (shape == 0) p.inner_pdu(Dot11Ack(Dot11::address_type(ACK + 4)));
+    else if (shape == 2) p.inner_pdu(RawPDU((const uint8_t*)"", 0));
+    const size_t inner = shape == 0 ? sizeof ACK : 0;
+    const size_t hdr = 4 + actual.size();
     const bool fcs = (m.mask >> K_FLAGS & 1) && (m.val[K_FLAGS] & 0x10);
     const size_t trailer = fcs ? 4 : 0;
-    if (w.size() != hdr + sizeof ACK + trailer)
-        return std::string("radiotap:serialize:size|") + str(w.size()) + " bytes for a " + str(hdr) + "-byte header + 10-byte frame + " + str(trailer) + "-byte FCS trailer (flags " +
-               ((m.mask >> K_FLAGS & 1) ? hx(m.val[K_FLAGS]) : std::string("absent")) + ")";
-    if (s.rt.trailer_size() != trailer) return "radiotap:serialize:trailer_size|trailer_size()=" + str(s.rt.trailer_size()) + " model " + str(trailer);
+    #define SH (std::string(" [shape ") + SHAPES[shape] + ", flags " + flags_str(m) + "]")
+    Bytes w = p.serialize();
+    if (w.size() != hdr + inner + trailer)
+        return "radiotap:serialize:size|" + str(w.size()) + " bytes for a " + str(hdr) + "-byte header + " + str(inner) + "-byte frame + " + str(trailer) + "-byte FCS trailer" + SH;
+    if (p.size() != w.size()) return "radiotap:serialize:size()|size()=" + str(p.size()) + " serialization " + str(w.size()) + " bytes" + SH;
+    if (p.trailer_size() != trailer) return "radiotap:serialize:trailer_size|trailer_size()=" + str(p.trailer_size()) + " model " + str(trailer) + SH;
     size_t it_len = w[2] | w[3] << 8;
-    if (it_len != hdr) return "radiotap:serialize:length-field|it_len=" + str(it_len) + " header bytes " + str(hdr);
-    if (s.rt.header_size() != hdr) return "radiotap:serialize:header_size|header_size()=" + str(s.rt.header_size()) + " header bytes " + str(hdr);
+    if (it_len != hdr) return "radiotap:serialize:length-field|it_len=" + str(it_len) + " header bytes " + str(hdr) + SH;
+    if (p.header_size() != hdr) return "radiotap:serialize:header_size|header_size()=" + str(p.header_size()) + " header bytes " + str(hdr) + SH;
     if (memcmp(&w[4], actual.data(), actual.size()) != 0)
-        return "radiotap:serialize:header-image|" + hex(w.data(), hdr) + " options_payload_ " + hex(actual);
-    if (memcmp(&w[hdr], ACK, sizeof ACK) != 0) return "radiotap:serialize:inner-frame|" + hex(&w[hdr], sizeof ACK);
-    // 5. parsing the bytes gives the same values and the same inner frame
+        return "radiotap:serialize:header-image|" + hex(w.data(), hdr) + " options_payload_ " + hex(actual) + SH;
+    if (inner && memcmp(&w[hdr], ACK, sizeof ACK) != 0) return "radiotap:serialize:inner-frame|" + hex(&w[hdr], sizeof ACK) + SH;
+    // parsing the bytes gives the same values (and the same inner frame, where there is one)
     Bytes* exact = new Bytes(w);  // exactly-sized heap copy: one byte past the end is a redzone
     std::string err;
     try {
         RadioTap q(exact->data(), (uint32_t)exact->size());
-        if (q.options_payload_ != actual) err = "radiotap:reparse:payload|" + hex(q.options_payload_) + " serialized " + hex(actual);
-        if (err.empty() && (uint32_t)q.present() != present_of(m)) err = "radiotap:reparse:present|" + hx((uint32_t)q.present());
-        if (err.empty()) err = getters_vs_model(q, m, "reparse");
+        if (q.options_payload_ != actual) err = "radiotap:reparse:payload|" + hex(q.options_payload_) + " serialized " + hex(actual) + SH;
+        if (err.empty() && (uint32_t)q.present() != present_of(m)) err = "radiotap:reparse:present|" + hx((uint32_t)q.present()) + SH;
+        if (err.empty()) { err = getters_vs_model(q, m, "reparse"); if (!err.empty()) err += SH; }
         if (err.empty()) {
             const PDU* in = q.inner_pdu();
-            if (!in) err = "radiotap:reparse:inner-missing|no inner PDU after parsing " + hex(w);
-            else if (in->pdu_type() != PDU::DOT11_ACK) err = "radiotap:reparse:inner-type|pdu_type " + str((int)in->pdu_type());
-            else {
-                Bytes ib = q.inner_pdu()->serialize();
-                if (ib.size() != sizeof ACK || memcmp(ib.data(), ACK, sizeof ACK) != 0) err = "radiotap:reparse:inner-bytes|" + hex(ib);
-            }
+            if (shape == 0) {
+                if (!in) err = "radiotap:reparse:inner-missing|no inner PDU after parsing " + hex(w) + SH;
+                else if (in->pdu_type() != PDU::DOT11_ACK) err = "radiotap:reparse:inner-type|pdu_type " + str((int)in->pdu_type()) + SH;
+                else {
+                    Bytes ib = q.inner_pdu()->serialize();
+                    if (ib.size() != sizeof ACK || memcmp(ib.data(), ACK, sizeof ACK) != 0) err = "radiotap:reparse:inner-bytes|" + hex(ib) + SH;
+                }
+            } else if (in && in->size() != 0) err = "radiotap:reparse:inner-invented|" + str(in->size()) + "-byte inner PDU after parsing a header without payload" + SH;
         }
     } catch (exception_base& ex) {
-        err = std::string("radiotap:reparse:rejected|RadioTap(serialize()) threw ") + typeid(ex).name() + " (flags " +
-              ((m.mask >> K_FLAGS & 1) ? hx(m.val[K_FLAGS]) : std::string("absent")) + ") on " + hex(w);
+        // the header alone with nothing behind it (no inner PDU, no FCS trailer: exactly it_len bytes) gets its own signature:
+        // notes/C11.md, finding H1.  HEADER_ONLY_MUST_PARSE = false turns exactly that case into "malformed_packet is acceptable".
+        const bool header_only = inner == 0 && trailer == 0;
+        const char* sig = header_only ? "radiotap:reparse:header-only-rejected" : "radiotap:reparse:rejected";
+        if (HEADER_ONLY_MUST_PARSE || !header_only || !dynamic_cast<malformed_packet*>(&ex))
+            err = std::string(sig) + "|RadioTap(serialize()) threw " + typeid(ex).name() + " on " + hex(w) + SH;
     }
     delete exact;
     ++g_reparses;
     return err;
+    #undef SH
+}
+
+// ---- full oracle of a transition; every read happens on a copy, so the explored objects themselves only ever see setters
+static std::string check_full(const S& s, const Bytes& want) {
+    const Model& m = s.m;
+    RadioTap t(s.rt);
+    const Bytes actual = s.rt.options_payload_;
+    if (t.options_payload() != actual) return "radiotap:layout:accessor|options_payload() differs from the member";
+    uint32_t pres = (uint32_t)t.present();
+    if (pres != present_of(m)) return "radiotap:present:mask|present()=" + hx(pres) + " written fields " + hx(present_of(m));
+    std::string e = getters_vs_model(t, m, "getter");
+    if (!e.empty()) return e;
+    for (int shape = 0; shape < 3; ++shape) {
+        e = wire_round_trip(s.rt, m, actual, shape);
+        if (!e.empty()) return e;
+    }
+    (void)want;
+    return "";
 }
 
 // ---------------------------------------------------------------- roots
@@ -250,6 +325,7 @@ static S parsed_root(uint32_t mask) {
     buf->insert(buf->end(), ACK, ACK + sizeof ACK);
     S s{RadioTap(buf->data(), (uint32_t)buf->size()), m};
     delete buf;
+    s.rt.inner_pdu((PDU*)0);   // explored objects are bare headers; the wire round trip attaches the inner PDU of each shape to a copy
     return s;
 }
 static S make_root(int root) {
@@ -259,9 +335,7 @@ static S make_root(int root) {
         m.mask = 1u << K_TSFT | 1u << K_FLAGS | 1u << K_CHANNEL | 1u << K_DBM_SIGNAL | 1u << K_ANTENNA | 1u << K_RX_FLAGS;
         m.val[K_TSFT] = 0; m.val[K_FLAGS] = 0x10; m.val[K_CHANNEL] = 2412u | 0xa0u << 16; m.val[K_DBM_SIGNAL] = (uint8_t)(int8_t)-50;
         m.val[K_ANTENNA] = 0; m.val[K_RX_FLAGS] = 0;
-        S s{RadioTap(), m};
-        s.rt.inner_pdu(Dot11Ack(Dot11::address_type(ACK + 4)));
-        return s;
+        return S{RadioTap(), m};
     }
     return parsed_root(root == 1 ? 0 : MID_MASK);
 }
@@ -270,6 +344,21 @@ static S make_root(int root) {
 static bool g_stop = false, g_replay_mode = false;
 static uint64_t g_last_idx = (uint64_t)-1, g_next_idx = 0;
 static const size_t CRASH_CAP = 4;
+// Work split: every job of a (root, value set) configuration runs the SAME BFS (setter + canonical-layout check on every
+// transition, so all of them prune identically), but the expensive part of the oracle (read probes, getters, three wire round
+// trips) is evaluated only for the source states the job owns: hash(state key) % g_slices == g_slice.  Every (state, setter)
+// transition is therefore judged by the full oracle in exactly one job.
+static int g_slices = 1, g_slice = 0;
+static uint64_t g_owned_states = 0, g_owned_transitions = 0;
+static uint64_t g_probed_src = 0; static bool g_have_probed_src = false;
+
+static uint64_t field_value(const Op& op) { return VAL[op.k][op.vi] & (F[op.k].size == 8 ? ~0ULL : ((1ULL << (8 * F[op.k].size)) - 1)); }
+static uint64_t state_hash(const S& s) {
+    uint64_t h = fnv(s.rt.options_payload_.data(), s.rt.options_payload_.size());
+    h = fnv(&s.m.mask, sizeof s.m.mask, h);
+    return fnv(s.m.val, sizeof s.m.val, h);
+}
+static bool owns(const S& s) { return g_replay_mode || state_hash(s) % (uint64_t)g_slices == (uint64_t)g_slice; }
 
 static void configure(Explorer<S, Op>& ex, int root, uint32_t v2mask, int flags_values) {
     for (int vi = 1; vi <= FLAGS_VALUES_THOROUGH; ++vi)
@@ -277,17 +366,18 @@ static void configure(Explorer<S, Op>& ex, int root, uint32_t v2mask, int flags_
             int nv = k == K_FLAGS ? flags_values : 1 + (v2mask >> k & 1);
             if (vi <= nv) ex.alphabet.push_back(Op{k, vi});
         }
-    ex.context = std::string("root=") + ROOTS[root] + " v2mask=" + hx(v2mask) + " nflags=" + str(flags_values);
+    ex.context = std::string("root=") + ROOTS[root] + " v2mask=" + hx(v2mask) + " nflags=" + str(flags_values) + " slice=" + str(g_slice) + "/" + str(g_slices);
     ex.op_str = op_str;
+    ex.replay_check = g_slice == 0;   // the hidden-state re-play of every new state's history is the same in every slice: once is enough
     ex.init = [root]() { return make_root(root); };
     ex.canon = [](const S& s) {
         std::string c = hex(s.rt.options_payload_) + "|" + hx(s.m.mask);
         for (int k = 0; k < NF; ++k) if (s.m.mask >> k & 1) c += "," + hx(s.m.val[k]);
         return c;
     };
-    // A transition that kills the process (the unrepaired writer runs vector::erase/insert past the end) is attributed by the
-    // driver and skipped by the explorer on the next attempt (--skip-list).  Every attempt repeats the whole prefix, so after
-    // CRASH_CAP crashes the job stops right behind the last one and reports the explored prefix (exhaustive:false).
+    // A transition that kills the process is attributed by the driver and skipped by the explorer on the next attempt
+    // (--skip-list).  Every attempt repeats the whole prefix, so after CRASH_CAP crashes the job stops right behind the last
+    // one and reports the explored prefix (exhaustive:false).
     ex.enabled = [](const S&, const Op&) {
         if (g_stop) return false;
         if (A.skip_list.size() >= CRASH_CAP && g_next_idx > *A.skip_list.rbegin()) {
@@ -302,59 +392,96 @@ static void configure(Explorer<S, Op>& ex, int root, uint32_t v2mask, int flags_
     ex.step = [](S& s, const Op& op) -> std::string {
         bool bfs_step = g_case_index != g_last_idx;   // the explorer announces every BFS transition with a new index; re-plays reuse it
         g_last_idx = g_case_index;
-        uint64_t v = VAL[op.k][op.vi] & (F[op.k].size == 8 ? ~0ULL : ((1ULL << (8 * F[op.k].size)) - 1));
-        try { set_field(s.rt, op.k, v); }
+        const bool judged = (bfs_step || g_replay_mode) && owns(s);
+        if (judged) {
+            // targeted reads first (on copies of the source state), the read-all of check_full comes afterwards and on a copy
+            uint64_t h = state_hash(s);
+            if (!g_have_probed_src || h != g_probed_src || g_replay_mode) {
+                g_have_probed_src = true; g_probed_src = h;
+                std::string e = probe_read_pairs(s);
+                if (Mon::errors && e.empty()) e = Mon::first + "|" + Mon::first_detail;
+                if (!e.empty()) return e;
+            }
+            std::string e;
+            try { e = probe_get_set_get(s, op); }
+            catch (std::exception& ex) { e = std::string("radiotap:setter-throws:") + F[op.k].name + "|" + typeid(ex).name() + ": " + ex.what(); }
+            if (Mon::errors && e.empty()) e = Mon::first + "|" + Mon::first_detail;
+            if (!e.empty()) return e;
+        }
+        try { set_field(s.rt, op.k, field_value(op)); }
         catch (std::exception& e) { return std::string("radiotap:setter-throws:") + F[op.k].name + "|" + typeid(e).name() + ": " + e.what(); }
-        s.m.mask |= 1u << op.k;
-        s.m.val[op.k] = v;
+        apply_model(s.m, op);
         if (Mon::errors) return Mon::first + "|" + Mon::first_detail;
         // the explorer's re-play of a new state's history on a fresh object only compares canonical keys:
         // the oracle was already evaluated on the BFS transition with the same (state, op)
         if (!bfs_step && !g_replay_mode) return "";
-        return check(s, op);
+        Bytes want;
+        std::string e = check_layout(s, op, want);
+        if (!e.empty() || !judged) return e;
+        ++g_owned_transitions;
+        return check_full(s, want);
     };
     // non-trivial: at least one padding gap in the canonical layout (alignment matters in this state)
     ex.nontrivial = [](const S& s) {
+        if (owns(s)) ++g_owned_states;    // called once per newly discovered state
         size_t raw = 4;
         for (int k = 0; k < NF; ++k) if (s.m.mask >> k & 1) raw += F[k].size;
         return s.rt.options_payload_.size() > raw;
     };
     ex.observe = [](const S& s) {
+        RadioTap c(s.rt);                 // reads never touch the explored object
         std::string o;
-        for (int k = 0; k < NF; ++k) { uint64_t v = 0; o += get_field(s.rt, k, v) ? hx(v) + ";" : "-;"; }
+        for (int k = 0; k < NF; ++k) { uint64_t v = 0; o += get_field(c, k, v) ? hx(v) + ";" : "-;"; }
         return o;
     };
 }
 
-// thorough tier: every other field gets a second value, four (three) at a time: four BFS runs per root
-static const int NSETS = 4;
-static const uint32_t V2_SETS[NSETS] = {
-    1u << K_TSFT | 1u << K_CHANNEL | 1u << K_SIGQ | 1u << K_XCHANNEL,
-    1u << K_RATE | 1u << K_DBM_SIGNAL | 1u << K_RX_FLAGS,
-    1u << K_TX_FLAGS | 1u << K_MCS | 1u << K_DBM_NOISE,
-    1u << K_ANTENNA | 1u << K_DB_SIGNAL | 1u << K_DATA_RETRIES};
+// Configurations.  Quick: the three roots, v1 everywhere, flags with its 3 steering values.  The default and the mid root carry six
+// fields each with root values != v1, so quick already overwrites 11 of the 14 fields with a different value in every context.
+// Thorough: (a) the three roots with a second value for the three fields no root carries (signal_quality, data_retries, mcs) and
+// flags with 4 values; (b) from the empty root a second value for the other ten fields, four/four/two at a time, flags with 3 values.
+struct Config { int root; uint32_t v2; int nflags; };
+static const uint32_t V2_NOROOT = 1u << K_SIGQ | 1u << K_DATA_RETRIES | 1u << K_MCS;
+static const Config QUICK_CFG[] = {{0, 0, FLAGS_VALUES_QUICK}, {1, 0, FLAGS_VALUES_QUICK}, {2, 0, FLAGS_VALUES_QUICK}};
+static const Config THOROUGH_CFG[] = {
+    {0, V2_NOROOT, FLAGS_VALUES_THOROUGH}, {1, V2_NOROOT, FLAGS_VALUES_THOROUGH}, {2, V2_NOROOT, FLAGS_VALUES_THOROUGH},
+    {1, 1u << K_TSFT | 1u << K_CHANNEL | 1u << K_RX_FLAGS | 1u << K_XCHANNEL, FLAGS_VALUES_QUICK},
+    {1, 1u << K_RATE | 1u << K_DBM_SIGNAL | 1u << K_DBM_NOISE | 1u << K_TX_FLAGS, FLAGS_VALUES_QUICK},
+    {1, 1u << K_ANTENNA | 1u << K_DB_SIGNAL, FLAGS_VALUES_QUICK}};
+static const int NQUICK = sizeof QUICK_CFG / sizeof QUICK_CFG[0], NTHOROUGH = sizeof THOROUGH_CFG / sizeof THOROUGH_CFG[0];
+static const int SLICES = 5;
 
 int main(int argc, char** argv) {
-    return run_main(argc, argv, NROOTS, NSETS * NROOTS,
+    return run_main(argc, argv, NQUICK * SLICES, NTHOROUGH * SLICES,
         [](int job) {
-            uint32_t v2 = A.thorough() ? V2_SETS[job / NROOTS] : 0;
-            int nflags = A.thorough() ? FLAGS_VALUES_THOROUGH : FLAGS_VALUES_QUICK;
-            job %= NROOTS;
+            g_slices = SLICES;
+            g_slice = job % g_slices;
+            const Config& cfg = (A.thorough() ? THOROUGH_CFG : QUICK_CFG)[job / g_slices];
+            int root = cfg.root;
             Explorer<S, Op> ex;
-            configure(ex, job, v2, nflags);
+            configure(ex, root, cfg.v2, cfg.nflags);
+            { S r0 = make_root(root); if (owns(r0)) ++g_owned_states; }
             bool ok = ex.run();
-            if (ok && !g_stop && A.skip_list.empty()) R.count("roots_to_fixpoint");
-            R.count("roots");
+            // the explorer counted every state/transition of the shared BFS in every slice; report what THIS job judged with the
+            // full oracle (each state and each transition is owned by exactly one slice) and keep the raw numbers separately
+            R.counters["bfs_states_visited"] = R.counters["states"];
+            R.counters["bfs_transitions_executed"] = R.counters["transitions"];
+            R.counters["states"] = g_owned_states;
+            R.counters["transitions"] = g_owned_transitions;
+            R.counters["traces_validated_against_impl"] = g_owned_transitions;
+            if (ok && !g_stop && A.skip_list.empty()) R.count("slices_to_fixpoint");
+            R.count("slices");
             R.count("getter_comparisons", g_getter_comparisons);
+            R.count("targeted_reads", g_targeted_reads);
             R.count("reparses", g_reparses);
         },
         [](const std::string& kase) -> int {
             auto kv = parse_kv(kase);
             int root = 0;
             for (int i = 0; i < NROOTS; ++i) if (kv["root"] == ROOTS[i]) root = i;
+            g_replay_mode = true;
             Explorer<S, Op> ex;
             configure(ex, root, 0x3fff, FLAGS_VALUES_THOROUGH);   // every op of either tier is replayable
-            g_replay_mode = true;
             std::string err = ex.replay(kv["ops"]);
             if (!err.empty()) { printf("violation reproduced: %s\n", err.c_str()); return 1; }
             printf("history replayed, all invariants hold\n");
